@@ -1,7 +1,7 @@
 """A MainProgram built with the *public* constructor from the default setup plus one extra
 instruction, `stub`, available in every phase:
 
-    stub STEP KIND [TAG]      STEP in {sym, pre, post, main, none}; KIND in {VE, HEr, HEx, EXC, FAIL, UNDEF}
+    stub STEP KIND [TAG]      STEP in {sym, pre, post, main, none, exeinput (in [setup]: the stdin of the action fails its validation; KIND MSG or EXC)}; KIND in {VE, HEr, HEx, EXC, FAIL, UNDEF}
 
 It logs every step it goes through in LOG and fails at STEP in the way KIND says
 (same fault kinds as the C01 stubs).  This makes every ending of C01 reachable from a test-case
@@ -40,6 +40,7 @@ def main_program(mem_buff_size=None):
     from exactly_lib.common.report_rendering import text_docs
     from exactly_lib.symbol.sdv_structure import SymbolReference
     from exactly_lib.type_val_deps.sym_ref.w_str_rend_restrictions import reference_restrictions
+    from exactly_lib.test_case.phases.act.adv_w_validation import AdvWValidation
 
     msg = text_docs.single_pre_formatted_line_object('stub failure')
 
@@ -92,6 +93,23 @@ def main_program(mem_buff_size=None):
             return svh_res(hit('setup', 'pre', s.spec))
 
         def main(s, env, settings, os_services, sb):
+            if s.spec[0] == 'exeinput':
+                # the step act/validate-exe-input: a stdin of the action whose validation fails in the given way (MSG: a message; EXC: raises)
+                kind, tag = s.spec[1], s.spec[2]
+
+                class StdinAdv(AdvWValidation):
+                    def validate(self_):
+                        LOG.append(('act', 'exeinput', tag))
+                        if kind == 'MSG':
+                            return msg
+                        raise ZeroDivisionError('injected')
+
+                    def resolve(self_, environment):
+                        return None
+
+                sb.stdin = StdinAdv()
+                LOG.append(('setup', 'main', tag))
+                return sh.new_sh_success()
             return sh_res(hit('setup', 'main', s.spec))
 
         def validate_post_setup(s, env):
